@@ -46,9 +46,20 @@ MatchOut(out, allowed0, scale) ==
 ScaleBin(op, a, b) == IF op \in {"+", "-"} THEN RAdd(RAbs(SIof(a)), RAbs(SIof(b)))
                       ELSE IF op = "/" /\ RSign(SIof(b)) = 0 THEN "0" ELSE RAbs(Exact(op, a, b))
 
+\* Cancellation at the validity boundary: when the exact result of a + or - on sign-constrained kinds lies within the rounding
+\* band (Eps x condition scale) of zero, the floating-point result may fall on either side of the boundary (e.g. a quantity minus
+\* itself re-expressed in another unit gives exactly 0.0 where the exact difference of the two doubles is 4e-23): both the
+\* refusal (ValueError) and the returned value are then explained.  Validity of whatever object IS returned stays judged (C19).
+AllowedBinT(op, a, b) ==
+  LET al == AllowedBin(op, a, b)
+      D == Dictated(op, a.kind, b.kind) IN
+  IF D = {} \/ (op = "/" /\ RSign(SIof(b)) = 0) \/ ~(\E k \in D : k \in (StrictPos \cup NonNeg)) THEN al
+  ELSE LET x == Exact(op, a, b) IN
+       IF RLe(RAbs(x), RMul(Eps, ScaleBin(op, a, b))) THEN al \cup {Raise("ValueError")} \cup { Ret(k, x) : k \in D } ELSE al
+
 BinopFails(e) ==
   IF ~(WF(e.a) /\ WF(e.b) /\ NumOK(e.a) /\ NumOK(e.b)) THEN {"BinMalformed"}
-  ELSE LET al == AllowedBin(e.op, e.a, e.b) IN
+  ELSE LET al == AllowedBinT(e.op, e.a, e.b) IN
        IF MatchOut(e.out, al, ScaleBin(e.op, e.a, e.b)) THEN {}
        ELSE IF e.out.t = "raise" THEN {"BinRaised_" \o e.out.err}
        ELSE IF \A x \in al : x.t = "raise" THEN {"BinReturnedButMustRaise"}
@@ -69,7 +80,7 @@ Operand(h, d) == IF d.slot > 0 THEN h[d.slot] ELSE [kind |-> "Number", unit |-> 
 
 StepAllowed(h, s) ==
   CASE s.op = "new" -> AllowedNew(s.kind, s.unit, s.val)
-    [] s.op \in {"+", "-", "*", "/"} -> AllowedBin(s.op, Operand(h, s.a), Operand(h, s.b))
+    [] s.op \in {"+", "-", "*", "/"} -> AllowedBinT(s.op, Operand(h, s.a), Operand(h, s.b))
     [] s.op = "neg" -> AllowedNeg(Operand(h, s.a))
     [] s.op = "abs" -> AllowedAbs(Operand(h, s.a))
     [] s.op \in {"to", "to_inplace"} -> AllowedTo(Operand(h, s.a), s.unit)
